@@ -32,6 +32,10 @@ structure OS where
   fdt : List (Option Nat) := []
   deriving Repr, DecidableEq, Inhabited
 
+/-- file-store update; the store grows when `f` is beyond its end -/
+def fset (l : List Data) (f : Nat) (d : Data) : List Data :=
+  if f < l.length then l.set f d else l ++ List.replicate (f - l.length) [] ++ [d]
+
 /-- table update; the table grows when `i` is beyond its end -/
 def tset (t : List (Option Nat)) (i : Nat) (v : Option Nat) : List (Option Nat) :=
   if i < t.length then t.set i v else t ++ List.replicate (i - t.length) none ++ [v]
@@ -46,7 +50,7 @@ def free (o : OS) : Nat := o.fdt.findIdx (fun x => x.isNone)
 /-- number of open descriptors (`len(os.listdir('/proc/self/fd'))`) -/
 def count (o : OS) : Nat := o.fdt.countP (fun x => x.isSome)
 def file (o : OS) (f : Nat) : Data := o.files.getD f []
-def setFile (o : OS) (f : Nat) (d : Data) : OS := { o with files := o.files.set f d }
+def setFile (o : OS) (f : Nat) (d : Data) : OS := { o with files := fset o.files f d }
 
 /-- `os.dup(src)` -/
 def dup (o : OS) (src : Nat) : OS × Nat := let n := o.free; (o.setFd n (o.fd src), n)
@@ -124,8 +128,9 @@ def Py.setStd (p : Py) (n : Nat) (s : Stream) : Py :=
 
 def W.setStd (w : W) (n : Nat) (s : Stream) : W := { w with py := w.py.setStd n s }
 def W.osWrite (w : W) (i : Nat) (d : Data) : W := { w with os := w.os.write i d }
-def W.bufAppend (w : W) (b : Nat) (d : Data) : W :=
-  { w with py := { w.py with bufs := w.py.bufs.set b (w.py.bufs.getD b [] ++ d) } }
+def W.buf (w : W) (b : Nat) : Data := w.py.bufs.getD b []
+def W.setBuf (w : W) (b : Nat) (d : Data) : W := { w with py := { w.py with bufs := fset w.py.bufs b d } }
+def W.bufAppend (w : W) (b : Nat) (d : Data) : W := w.setBuf b (w.buf b ++ d)
 
 /-- `stream.write(d)` (+ the flush that `write_through` implies) -/
 def writePy (w : W) : Stream → Data → W
@@ -214,8 +219,8 @@ def resume (w : W) (c : SysCap) : W × SysCap :=
 def snap (w : W) (c : SysCap) : W × Data :=
   if !(c.state == .started || c.state == .suspended) then (w.fail, []) else
   match c.tmp with
-  | .capIO _ b => ({ w with py := { w.py with bufs := w.py.bufs.set b [] } }, w.py.bufs.getD b [])
-  | .teeIO _ b _ => ({ w with py := { w.py with bufs := w.py.bufs.set b [] } }, w.py.bufs.getD b [])
+  | .capIO _ b => (w.setBuf b [], w.buf b)
+  | .teeIO _ b _ => (w.setBuf b [], w.buf b)
   | _ => (w.fail, [])
 
 def writeorg (w : W) (c : SysCap) (d : Data) : W :=
